@@ -16,6 +16,7 @@ Print Assumptions C01_linear_row_reproduces_residues.
 Theorem C01_linear_row_length : forall res g,
   length g = S (length res) -> length (expand g res) = length res + sum_nat g.
 Proof. exact expand_length. Qed.
+Print Assumptions C01_linear_row_length.
 
 (* add_gap_info_to_path_n: a well-formed raw path expands to ops that consume every residue of
    side 1 and every residue of side 2 exactly once. *)
